@@ -26,6 +26,10 @@ class ModbusSim(PeerBase):
 
     def send_answer(self, s, resp, n):
         """the answer after `delay`; with frag = (k, gap) in two pieces (the first k bytes, the rest `gap` later)"""
+        lt = getattr(self, "lose_tail", 0)
+        if lt and len(resp) > lt:
+            self.lose_tail = 0
+            return self.send(s, resp[:lt], self.delay, n, 1)      # (the rest of this answer is lost on the way)
         xd = getattr(self, "exc_delay", 0.0)
         if xd and ((resp[0:2] == b"\xaa\x55" and len(resp) > 3 and resp[3] & 0x80) or (resp[0:2] != b"\xaa\x55" and len(resp) > 7 and resp[7] & 0x80)):
             return self.send(s, resp, self.delay + xd, n)       # firmware that is slow to refuse (exception answers come late)
